@@ -260,6 +260,7 @@ func (m *BasicMutableWorld) AddFeature(f Feature) error {
 		(*m.features)[f.FeatureID()] = f
 		for _, reference := range references {
 			if err := ValidateFeature(NewFeatureFromWorld(reference), &ValidateOptions{InvertClockwisePaths: false}, m); err != nil {
+				(*m.features)[f.FeatureID()] = existing
 				return err
 			}
 		}
@@ -856,18 +857,26 @@ func (m *MutableOverlayWorld) AddFeature(f Feature) error {
 		return err
 	}
 
-	existing := (*m.features)[f.FeatureID()]
+	// The feature being replaced may only exist in the base world, so features
+	// that reference it are validated whether or not we hold a copy of it.
+	existing, replaced := (*m.features)[f.FeatureID()]
 	references := allReferences(f, m)
-	if existing != nil {
+	if len(references) > 0 {
 		(*m.features)[f.FeatureID()] = f
-
+		var err error
 		for _, reference := range references {
-			if err := ValidateFeature(NewFeatureFromWorld(reference), &ValidateOptions{InvertClockwisePaths: false}, m); err != nil {
-				return err
+			if err = ValidateFeature(NewFeatureFromWorld(reference), &ValidateOptions{InvertClockwisePaths: false}, m); err != nil {
+				break
 			}
 		}
-
-		(*m.features)[f.FeatureID()] = existing
+		if replaced {
+			(*m.features)[f.FeatureID()] = existing
+		} else {
+			delete(*m.features, f.FeatureID())
+		}
+		if err != nil {
+			return err
+		}
 	}
 
 	modified := NewModifiedFeaturesWithCopies(f, references, m.features, m)
